@@ -730,6 +730,13 @@ class C17(core.PropertyCheck):
                     open(os.path.join(root, "index.txt"), "w").write("x\n")
                     open(os.path.join(proj, "snooty.toml"), "w").write('name = "outer"\n')
                     extra = []   # YAML files written between two scans
+                    # links that lead INTO directories which may become (or stop being) part of a nested project between two scans
+                    links = rng.choice([[], [("zl-deep", "a/deep")], [("zl-deep", "a/deep"), ("b/zl-c", "../c")], [("c/zl-a", "../a/deep")]])
+                    for ln, tgt in links:
+                        os.symlink(tgt, os.path.join(root, ln))
+
+                    def real_rel(p):
+                        return os.path.relpath(os.path.realpath(os.path.join(root, p)), os.path.realpath(root))
 
                     def state():
                         return {d for d in dirs if os.path.exists(os.path.join(root, d, "snooty.toml"))}
@@ -751,7 +758,10 @@ class C17(core.PropertyCheck):
                         nested = state()
                         top = {nd for nd in nested if not any(nd.startswith(o + "/") for o in nested if o != nd)}
                         reported = {os.path.dirname(str(k)) for k in diags}
-                        if got != expected(nested) or reported != top:
+                        # links may give a directory another name: judge by the real files and the real nested projects
+                        got = {real_rel(p) for p in got}
+                        reported = {real_rel(p) for p in reported}
+                        if got != expected(nested) or not (reported <= nested and top <= reported):
                             viol.append({"case": {"kind": "rescan", "step": step, "nested": sorted(nested), "got": sorted(got), "reported": sorted(reported)},
                                          "desc": (f"rescan: scan number {step + 1} of one tree in one process, nested projects now {sorted(nested)}: yielded {sorted(got)} "
                                                   f"(expected {sorted(expected(nested))}), NestedProject reported for {sorted(reported)} (expected {sorted(top)})"),
@@ -761,7 +771,7 @@ class C17(core.PropertyCheck):
                         # as a rebuild or a reopened workspace does)
                         from snooty.types import ProjectConfig
                         cfg, _ = ProjectConfig.open(Path(proj))
-                        goty = {fid.as_posix() for fid in cfg.get_files_by_extension((".yaml",))}
+                        goty = {real_rel(fid.as_posix()) for fid in cfg.get_files_by_extension((".yaml",))}
                         if goty != expected(nested, "extracts-q.yaml"):
                             viol.append({"case": {"kind": "rescan-yaml", "step": step, "nested": sorted(nested), "got": sorted(goty)},
                                          "desc": (f"rescan: listing number {step + 1} of the YAML sources of one project in one process, nested projects now "
